@@ -35,11 +35,22 @@ def num(v, key, default=0):
     m = re.match(r'^-?\d+', x)
     return int(m.group(0)) if m else default
 
+SETS_OPS = {'bnd.fs.merge.': 'fs_merge', 'bnd.fs.merge_other.': 'fs_merge_other', 'bnd.fs.insert_range.': 'fs_insert_range', 'bnd.fs.from_vector.': 'fs_from_vector',
+            'bnd.ss.merge.': 'ss_merge'}
+
 def derive(unit, obl):
     uid = unit['id']
     v = last_values(obl.get('trace', []))
     if not v:
         return None
+    for pre, op in SETS_OPS.items():
+        if uid.startswith(pre):
+            # bounded set units: the glue exports its concrete inputs under fixed names (g_in_*)
+            if 'g_in_tok' not in v:
+                return None
+            na, nb = num(v, 'g_in_na'), num(v, 'g_in_nb')
+            return {'kind': 'sets', 'op': op, 'tok': num(v, 'g_in_tok'), 'tok2': num(v, 'g_in_tok2'), 'la': num(v, 'g_in_la'), 'lb': num(v, 'g_in_lb'),
+                    'a': [num(v, 'g_in_a%d' % i) for i in range(min(na, 4))], 'b': [num(v, 'g_in_b%d' % i) for i in range(min(nb, 4))]}
     parts = uid.split('.')
     rec = None
     if parts[0] in ('op', 'cfg') :
@@ -84,7 +95,30 @@ def derive(unit, obl):
         return None
     return rec
 
+def run_native_sets(recipe):
+    src = os.path.join(VERIF, 'replay', 'native_sets.cpp')
+    key = hashlib.sha1(open(src).read().encode()).hexdigest()[:16]
+    bdir = os.path.join(VERIF, 'build', 'replay'); os.makedirs(bdir, exist_ok=True)
+    exe = os.path.join(bdir, 'ns_' + key)
+    if not os.path.exists(exe):
+        r = subprocess.run(['g++', '-std=c++17', '-DAMC_NONSTD_FEATURES', '-fsanitize=address,undefined', '-fno-sanitize-recover=undefined', '-g',
+                            '-I' + os.path.join(REPO, 'include'), src, '-o', exe], capture_output=True, text=True)
+        if r.returncode != 0:
+            return False, 'native set replayer does not build against the current headers:\n' + r.stderr[-1500:]
+    args = ['op=' + recipe['op'], 'tok=%d' % recipe['tok'], 'tok2=%d' % recipe['tok2'], 'la=%d' % recipe['la'], 'lb=%d' % recipe['lb'],
+            'a=' + ','.join(str(x) for x in recipe['a']), 'b=' + ','.join(str(x) for x in recipe['b'])]
+    try:
+        r = subprocess.run([exe] + args, capture_output=True, text=True, timeout=120, env=dict(os.environ, ASAN_OPTIONS='detect_leaks=1:abort_on_error=0'))
+    except subprocess.TimeoutExpired:
+        return True, 'native replay did not terminate within 120 s (' + ' '.join(args) + ')'
+    out = '$ ' + os.path.basename(exe) + ' ' + ' '.join(args) + '\n' + r.stdout[-3000:] + r.stderr[-2500:]
+    if r.returncode == 3:
+        return False, out
+    return r.returncode != 0, out
+
 def run_native(recipe, log=print):
+    if recipe.get('kind') == 'sets':
+        return run_native_sets(recipe)
     tr = 1 if recipe['cat'] == 'TR' else 0
     defs = ['-DR_FLAVOUR=%d' % FL[recipe['flavour']], '-DR_N=%d' % max(recipe['N'], 1 if recipe['flavour'] != 'std' else 0), '-DR_SIZE_T=' + SZ[recipe['sz']], '-DR_TR=%d' % tr]
     if 'flavour2' in recipe:
